@@ -255,6 +255,19 @@ func runSequence(steps []Step) (sig, msg string, stats map[string]int) {
 				stats["deleteraced-skipped-not-live"]++
 				break
 			}
+			// (not while a watch of this key is open: the bucket keeps one revision per key, and a watcher that
+			// lags behind a burst of overwrites is served the newer revision only - which of the refreshes it
+			// sees is then up to the server's timing, and the model cannot say)
+			watched := false
+			for _, w := range watchers {
+				if w.real != nil && w.key == key {
+					watched = true
+				}
+			}
+			if watched {
+				stats["deleteraced-skipped-key-watched"]++
+				break
+			}
 			kv2, err2 := leader.VerifNewNATSKeyValue(conn, bucket)
 			if err2 != nil {
 				return fail(i, "C14 second-handle-failed", err2.Error())
